@@ -3,6 +3,7 @@ package main
 import (
 	"context"
 	"fmt"
+	"os"
 	"github.com/brimdata/super/pkg/verifhook"
 
 	"verif/internal/gen"
@@ -97,6 +98,72 @@ func runC14(c *rt.Ctx) {
 			c14History(c, o, spec, r.Bool(), ops)
 		})
 	}
+	// histories on a real directory with `super db manage` steps (the
+	// compaction planner of cmd/super/internal/lakemanage is reachable only
+	// through the binary, which the driver builds from the same tree)
+	if os.Getenv("VERIF_SUPER_BIN") == "" {
+		c.Note("manage", "VERIF_SUPER_BIN not set: histories with `super db manage` steps not run")
+		return
+	}
+	for i, d := range c14ManageDirected() {
+		d := d
+		c.Case("manage-directed", i, func(o *rt.Obs) { c14HistoryOn(c, o, d.spec, true, true, d.ops) })
+	}
+	nman := c.N(10, 300)
+	for i := 0; i < nman; i++ {
+		c.Case("manage", i, func(o *rt.Obs) {
+			r := o.R
+			spec := genPoolSpec(r, "p")
+			if spec.Key == "this" {
+				spec.Key = "k"
+			}
+			// manage groups objects until a run reaches the pool threshold: small
+			// thresholds give several runs, large ones a single run
+			spec.Thresh = rt.Pick(r, []int64{60, 200, 500, 2000, 0})
+			hg := &histGen{r: r, key: spec.Key, branches: []string{"main"}, vg: &lakeValGen{r: r, key: spec.Key}}
+			n := r.Range(4, c.N(9, 20))
+			var ops []lk.Op
+			for len(ops) < n {
+				switch x := r.Intn(10); {
+				case len(ops) < 2 || x < 4:
+					ops = append(ops, lk.Op{Kind: "load", Branch: "main", Vals: hg.vg.vals(r.Range(1, 8))})
+				case x < 7:
+					ops = append(ops, lk.Op{Kind: "manage", Branch: "main", Vectors: r.Chance(1, 3)})
+				default:
+					op := hg.op()
+					if op.Kind == "vacuum" {
+						continue
+					}
+					ops = append(ops, op)
+				}
+			}
+			ops = append(ops, lk.Op{Kind: "manage", Branch: "main"})
+			c14HistoryOn(c, o, spec, true, true, ops)
+		})
+	}
+}
+
+// c14ManageDirected: fixed histories with manage steps — overlapping loads that
+// one run must merge, then disjoint ones that stay apart, then a second pass.
+func c14ManageDirected() []struct {
+	spec lk.PoolSpec
+	ops  []lk.Op
+} {
+	ld := func(vals ...string) lk.Op { return lk.Op{Kind: "load", Branch: "main", Vals: vals} }
+	man := lk.Op{Kind: "manage", Branch: "main"}
+	manv := lk.Op{Kind: "manage", Branch: "main", Vectors: true}
+	return []struct {
+		spec lk.PoolSpec
+		ops  []lk.Op
+	}{
+		{lk.PoolSpec{Name: "p", Key: "k", Order: "asc", Thresh: 100}, []lk.Op{
+			ld("{k:1,id:1}", "{k:9,id:2}"), ld("{k:5,id:3}", "{k:7,id:4}"), ld("{k:20,id:5}", "{k:30,id:6}"), man,
+			ld("{k:25,id:7}"), ld("{k:null,id:8}", "{id:9}", "{k:\"a\",id:10}"), manv, man}},
+		{lk.PoolSpec{Name: "p", Key: "k", Order: "desc", Thresh: 60}, []lk.Op{
+			ld("{k:1,id:1}", "{k:9,id:2}"), ld("{k:5,id:3}", "{k:null,id:4}"), ld("{k:20,id:5}", "{k:3.5,id:6}"), ld("{k:2,id:7}"), manv,
+			{Kind: "delete-where", Branch: "main", Pred: "k > 4"}, ld("{k:6,id:11}"), ld("{k:6,id:12}", "{k:0,id:13}"), man,
+			{Kind: "revert", Branch: "main", Commit: 4}, man}},
+	}
 }
 
 func eraseTypes(recs []gen.Rec) []gen.Rec {
@@ -156,12 +223,24 @@ func c14Directed() []struct {
 }
 
 func c14History(c *rt.Ctx, o *rt.Obs, spec lk.PoolSpec, fileLike bool, ops []lk.Op) {
-	o.Desc(map[string]any{"pool": spec, "file_semantics": fileLike, "ops": ops})
-	if o.Index%400 == 0 {
-		o.Sample(map[string]any{"pool": spec, "file_semantics": fileLike, "ops": ops})
+	c14HistoryOn(c, o, spec, fileLike, false, ops)
+}
+
+// c14HistoryOn: with real set the lake lives in a scratch directory behind the
+// repository's own file engine, which is what `manage` steps (the `super`
+// binary run on that directory) need.
+func c14HistoryOn(c *rt.Ctx, o *rt.Obs, spec lk.PoolSpec, fileLike, real bool, ops []lk.Op) {
+	o.Desc(map[string]any{"pool": spec, "file_semantics": fileLike, "real_file_engine": real, "ops": ops})
+	if o.Index%400 == 0 || real && o.Index%10 == 0 {
+		o.Sample(map[string]any{"pool": spec, "file_semantics": fileLike, "real_file_engine": real, "ops": ops})
 	}
 	ctx := context.Background()
-	eng, l, m, err := newMemLake(ctx, fileLike, spec)
+	backing := newBacking(real)
+	defer store.Discard(backing)
+	if real {
+		o.Count("histories_on_real_file_engine", 1)
+	}
+	eng, l, m, err := newLakeOn(ctx, backing, fileLike, spec)
 	if err != nil {
 		o.Violation("setup-failed", err.Error())
 		return
@@ -180,6 +259,11 @@ func c14History(c *rt.Ctx, o *rt.Obs, spec lk.PoolSpec, fileLike bool, ops []lk.
 		problemsToViolations(o, "", step, out.Problems)
 		if out.Err == nil && out.Commit != [20]byte{} {
 			if mc := m.Commits[out.Commit]; mc != nil {
+				if op.Kind == "manage" {
+					o.Count("manage_runs_that_rewrote_objects", 1)
+					o.Count("manage_objects_compacted", int64(len(mc.Dels)))
+					o.Count("manage_objects_written", int64(len(mc.Adds)))
+				}
 				// a scan has to merge objects: some load produced ≥2 objects, or the
 				// branch holds ≥2 objects after the step
 				if mc.Kind == "load" && len(mc.Adds) >= 2 || len(m.State(m.Branches[op.Branch])) >= 2 {
